@@ -24,6 +24,15 @@ theorem every_attempt_is_original (cfg : Cfg) (h : cfg.rewinds = true) (script :
     ∀ w ∈ (send cfg script).1, w = .sent (original cfg) ∨ w = .sent { original cfg with tls := false } := by
   exact (sendLoop_general cfg h cfg.bo script [] (by simp)).1
 
+/-- **C34 (1b)** Where the attempts go: the wire history is a sequence of loop iterations, each of
+them one attempt of the original request — original URL and scheme — optionally followed directly
+by its plain-http fallback attempt.  So every retry of an https request is again an https attempt
+to the original URL, and an http attempt only ever occurs as the fallback right behind an https
+attempt (it never takes the place of a retry). -/
+theorem retries_go_to_the_original_url (cfg : Cfg) (h : cfg.rewinds = true) (script : List Outcome) :
+    Blocks cfg (send cfg script).1 :=
+  sendLoop_blocks cfg h cfg.bo script [] Blocks.nil
+
 /-- **C34 (2)** Success is only reported with an accepted status, and the attempt it answers (the
 last one) carried the complete original request. -/
 theorem success_is_honest (cfg : Cfg) (h : cfg.rewinds = true) (script : List Outcome) (c : Nat)
